@@ -247,7 +247,8 @@ def drive(tier):
 def run(tier):
     rep = Report("C19", tier)
     rep.add_mc("MC_Rpc", vlib.run_mc("MC_Rpc", cfg="MC_Rpc" if tier == "quick" else "MC_Rpc_thorough"))
-    recs = drive(tier)
+    recs, nsecond, ndiff = vlib.second_pass(drive, tier)
+    rep.cov["second_pass_calls"], rep.cov["second_pass_differing"] = nsecond, ndiff
     mm = vlib.validate("Trace_Rpc", recs)
     rep.apply_mismatches(recs, mm)
     calls = [x for x in recs if x["op"] == "rpc.call"]
